@@ -147,8 +147,10 @@ class Report:
             "wall_s": round(time.time() - self.t0, 1),
             "violations": len(self.violations),
         }
-        os.makedirs(os.path.join(VERIF, "evidence"), exist_ok=True)
-        with open(os.path.join(VERIF, "evidence", self.pid + ".json"), "w") as f:
+        # (VERIF_EVIDENCE_DIR: only tools/eval_seeded.sh sets it, so that a run against a seeded change never overwrites evidence)
+        evdir = os.environ.get("VERIF_EVIDENCE_DIR") or os.path.join(VERIF, "evidence")
+        os.makedirs(evdir, exist_ok=True)
+        with open(os.path.join(evdir, self.pid + ".json"), "w") as f:
             json.dump(ev, f, indent=1, default=str)
         sys.stderr.write("[%s %s] obligations=%d held=%d inconclusive=%d cex=%d violations=%d known=%d "
                          "errors=%d wall=%.0fs\n" % (self.pid, self.tier, len(self.conditions), len(held),
